@@ -21,6 +21,8 @@ KINDS = {
     "dqn": dict(ty="DqN", double=True),
     "pqk": dict(ty="PqK", double=False),
     "dqk": dict(ty="DqK", double=True),
+    "pqr": dict(ty="PqR", double=False),
+    "dqr": dict(ty="DqR", double=True),
 }
 
 INSTANCES = []
@@ -150,19 +152,25 @@ def _split():
                          cost=(40 if kind == "dq" else 10) * n)
     # extraction from identity tables (the sift starts at a concrete position): the sizes at
     # which the trickle-down reaches grandchildren of both children of the root
-    for n, t in ((6, QUICK), (7, QUICK), (8, THOROUGH), (9, THOROUGH), (15, THOROUGH), (16, THOROUGH), (17, THOROUGH), (18, THOROUGH)):
+    # (n = 17: the first size at which the trickle-down from a max-level node reaches a
+    # grandchild that has children of its own; measured 5 min, 9 GB per instance)
+    for n, t in ((6, QUICK), (7, QUICK), (8, THOROUGH), (9, THOROUGH), (15, THOROUGH), (16, THOROUGH), (17, QUICK), (18, THOROUGH)):
         for op in ("pop_lo", "pop_hi", "pop_lo_if"):
             if n >= 15 and op == "pop_lo_if":
                 continue
-            step(op, "dq", n, "inv", "or", {"C02": t, "C08": t if op == "pop_lo_if" else None}, tables="id",
-                 cost=30 * n if n < 15 else 1500, mem=3 if n < 15 else 16)
+            # sorted consumption is a chain of these extractions (C06)
+            step(op, "dq", n, "inv", "or", {"C02": t, "C08": t if op == "pop_lo_if" else None,
+                                            "C06": t if op != "pop_lo_if" else None}, tables="id",
+                 cost=30 * n if n < 15 else 1500, mem=3 if n < 15 else 10)
     for n, t in ((8, QUICK), (9, THOROUGH), (15, THOROUGH), (16, THOROUGH)):
-        step("pop_hi", "pq", n, "inv", "or", {"C01": t}, tables="id", cost=10 * n)
+        step("pop_hi", "pq", n, "inv", "or", {"C01": t, "C06": t}, tables="id", cost=10 * n)
     # two min levels crossed (C02's "sizes >= 16"): position split at n = 15, 16
     for n in (15, 16):
         for op, grow, keys in (("push", 1, (n,)), ("change_priority", 0, (0, 7, n - 1)), ("remove", 0, (0, 3))):
             for k in keys:
-                step(op, "dq", n, "inv", "or", {"C02": THOROUGH}, tables=f"idk{k}", grow=grow, cost=2500, mem=16)
+                # a new element at slot 15 / 16 rises across two min (or max) levels: 45 s
+                step(op, "dq", n, "inv", "or", {"C02": QUICK if op == "push" else THOROUGH}, tables=f"idk{k}", grow=grow,
+                     cost=300 if op == "push" else 2500, mem=4 if op == "push" else 16)
     # C11 / C12 on the min-max heap at n = 4: every position, all groups
     for n, t in ((4, QUICK), (6, THOROUGH)):
         for op in ("push_increase", "push_decrease"):
@@ -467,6 +475,10 @@ def _bulk():
         for w, what in enumerate(("new", "with_capacity(0)", "with_capacity(1)", "with_capacity(5)")):
             inst(f"ctor_{kind}_{w}", f"bulk::ctor::<{ty}>({w})", kind, 1,
                  {op_: QUICK, "C04": QUICK, "C17": QUICK, "C03": QUICK}, "BASE", meta=dict(ctor=what, kind=kind), covers_required=False)
+        for w, what in enumerate(("new()", "with_capacity(0)", "with_capacity(5)")):
+            inst(f"ctor_{kind}_std_{w}", f"bulk::ctor_std::<{KINDS[kind + 'r']['ty']}>({w})", kind + "r", 2,
+                 {op_: QUICK, "C04": QUICK, "C17": QUICK, "C18": QUICK}, "BASE",
+                 meta=dict(ctor=what, kind=kind, hasher="std RandomState (the default randomly keyed hasher)"), covers_required=False)
         # ---- append
         for n in range(0, nt + 1):
             for m in (0, 1, 2, 3):
